@@ -35,6 +35,10 @@ Inductive sop :=
 | SSetConnected (b : bool)  (* driver: is-connected flag *)
 | SClose.                   (* publication.close() *)
 
+(* the documented ways an offer / a claim is refused without any effect *)
+Definition refusal (e : err) : bool :=
+  match e with BackPressured | NotConnected | MaxPositionExceeded | TooLong | Closed => true | _ => false end.
+
 (* the two publisher flavours behind one interface *)
 Record flavour := mkFlavour {
   fl_state : Type;
